@@ -62,6 +62,48 @@ def run(chk, scratch):
     chk.cov["max_return_latency_ms"] = max(e["latencyMs"] for e in ev)
     chk.cov["out_of_group_survivors_allowed"] = sum(1 for e in ev if set(e["survivors"]) - set(e["survivorsIn"]))
     chk.sample({"tree": {k: ev[0][k] for k in ("startMode", "stopMode", "spawned", "inGroup", "returned", "latencyMs", "survivors", "isOn")}})
+    # 3. the supervisor loop (growth beyond the listed property): Supervisor.tla, as coded, replayed on the real supervisor
+    common.model_check(chk, scratch, SPEC, "Supervisor", "Supervisor_intended.cfg", "Supervisor loop, intended (no command left behind), 3 iterations, every cancellation instant", workers=4, fast=True)
+    common.model_check(chk, scratch, SPEC, "Supervisor", "Supervisor_ascoded.cfg", "Supervisor loop as coded: hook order, one command at a time, halting errors, no start after cancellation", workers=4, fast=True)
+    r3 = vlib.run_tlc(scratch, [SPEC], "Supervisor", "Supervisor_leak.cfg", workers=2, timeout=300, fast=True)
+    vlib.tlc_must_pass(r3, "Supervisor_leak")
+    chk.add_tlc("Supervisor as coded (must violate NoCommandLeftRunning: a failing postStart hook leaves the command behind)", r3)
+    if r3.violated != "NoCommandLeftRunning":
+        raise vlib.Inconclusive("sensitivity self-test failed: Supervisor_leak.cfg reported %s" % r3.violated)
+    r4 = vlib.run_tlc(scratch, [SPEC], "Supervisor", "Supervisor_emit.cfg", workers=1, timeout=600, fast=True)
+    vlib.tlc_must_pass(r4, "Supervisor_emit")
+    if r4.violated:
+        raise vlib.Inconclusive("Supervisor_emit reported %s" % r4.violated)
+    chk.add_tlc("Supervisor scenario emission (script x failing hook x cancellation iteration)", r4)
+    sup = rnd.sample(r4.behaviours, min(len(r4.behaviours), 1200 if thorough else 100))
+    inp2 = os.path.join(scratch, "c05-sup.ndjson")
+    vlib.write_ndjson(inp2, sup)
+    tr2 = os.path.join(scratch, "c05-sup-trace.ndjson")
+    p = vlib.run_vh(vh, ["c05", "supervisor", "--in", inp2, "--out", tr2, "--dir", scratch, "--seed", chk.seed], timeout=6000)
+    if p.returncode != 0:
+        raise vlib.Inconclusive("c05 supervisor driver failed: " + p.stderr[-2000:])
+
+    class Observing:
+        """Signatures prefixed 'observation:' concern behaviour outside the listed property (Supervisor.tla's named deviation): counted, not alarmed."""
+        def __init__(self, chk):
+            self.__dict__["chk"] = chk
+            self.__dict__["seen"] = {}
+        def __getattr__(self, k):
+            return getattr(self.chk, k)
+        def __setattr__(self, k, v):
+            setattr(self.chk, k, v)
+        def violation(self, sig, detail, payload=None):
+            if sig.startswith("observation:"):
+                self.seen[sig] = self.seen.get(sig, 0) + 1
+                return
+            self.chk.violation(sig, detail, payload)
+    obs = Observing(chk)
+    ev2 = judge(obs, scratch, tr2, "supervisor runs", spec="SupervisorTrace", spec_dir=SPEC,
+                describe=lambda e: "script %s, failing hook %s@%s, cancelled during %s: observed %s, model %s; returned %s (model %s); alive %s (model %s); postStop %s; latency %s ms" % (
+                    e.get("script"), e.get("failHook"), e.get("failIter"), e.get("cancelAt"), e.get("names"), e.get("expectedLog"), e.get("ret"), e.get("expectedRet"),
+                    e.get("alive"), e.get("expectedLeaked"), e.get("stopKinds"), e.get("latencyMs")))
+    chk.cov["supervisor_runs"] = len(ev2)
+    chk.cov["observations_outside_the_listed_property"] = obs.seen
     chk.cov["rule"] = ("scenario = parent of each of 3 descendants x stays in the group / setsid x ignores SIGTERM x keeps the output pipes x direct child exits first x Execute / Start x context "
                        "cancelled / Cancel() / Stop(), all enumerated by TLC; each becomes a real tree of re-executed harness processes sleeping 120 s; bound 12 s for the return, survivors sampled "
                        "300 ms after it from /proc/<pid>/stat; non-trivial = at least one descendant")
